@@ -255,4 +255,105 @@ example : charBytes .utf8 0x20AC = some [0xE2, 0x82, 0xAC] ∧ genTables.isKey [
   decide +kernel
 example : charBytes .ascii 97 = some [97] ∧ genTables.isKey [97] = false := by decide +kernel
 
-end Curtsies
+/-! ### (2) the decoder asks for more input only while the bytes can still grow -/
+
+/-- `seq` is a proper, non-empty prefix of a table sequence: it can still grow into a recognised sequence -/
+def growsIntoKey (T : KeyTables) (seq : List Nat) : Prop :=
+  ∃ e ∈ T.all, ∃ i < e.1.length, 1 ≤ i ∧ e.1.take i = seq
+
+/-- a lead byte followed by continuation bytes that are valid so far (strict UTF-8 ranges), still incomplete -/
+def wellFormedSoFar : List Nat → Prop
+  | [b0] => 0xC2 ≤ b0 ∧ b0 < 0xF5
+  | [b0, b1] => 0xE0 ≤ b0 ∧ b0 < 0xF5 ∧ isCont b1 = true ∧ (b0 = 0xE0 → 0xA0 ≤ b1) ∧ (b0 = 0xED → b1 < 0xA0) ∧
+      (b0 = 0xF0 → 0x90 ≤ b1) ∧ (b0 = 0xF4 → b1 < 0x90)
+  | [b0, b1, b2] => 0xF0 ≤ b0 ∧ b0 < 0xF5 ∧ isCont b1 = true ∧ isCont b2 = true ∧
+      (b0 = 0xF0 → 0x90 ≤ b1) ∧ (b0 = 0xF4 → b1 < 0x90)
+  | _ => False
+
+theorem wellFormed_completes (seq : List Nat) (h : wellFormedSoFar seq) :
+    ∃ ext, ext ≠ [] ∧ validChar (seq ++ ext) := by
+  have c80 : isCont 0x80 = true := by decide
+  have cA0 : isCont 0xA0 = true := by decide
+  have c90 : isCont 0x90 = true := by decide
+  match seq, h with
+  | [b0], h =>
+    simp only [wellFormedSoFar] at h
+    by_cases h1 : b0 < 0xE0
+    · exact ⟨[0x80], by simp, _, decodeOne_2 b0 0x80 [] h.1 h1 c80⟩
+    · by_cases h2 : b0 < 0xF0
+      · by_cases e : b0 = 0xE0
+        · exact ⟨[0xA0, 0x80], by simp, _, decodeOne_3 b0 0xA0 0x80 [] (by omega) h2 cA0 c80 (by omega) (by omega)⟩
+        · exact ⟨[0x80, 0x80], by simp, _, decodeOne_3 b0 0x80 0x80 [] (by omega) h2 c80 c80 (by omega) (by omega)⟩
+      · by_cases e : b0 = 0xF0
+        · exact ⟨[0x90, 0x80, 0x80], by simp, _,
+            decodeOne_4 b0 0x90 0x80 0x80 [] (by omega) h.2 c90 c80 c80 (by omega) (by omega)⟩
+        · exact ⟨[0x80, 0x80, 0x80], by simp, _,
+            decodeOne_4 b0 0x80 0x80 0x80 [] (by omega) h.2 c80 c80 c80 (by omega) (by omega)⟩
+  | [b0, b1], h =>
+    simp only [wellFormedSoFar] at h
+    obtain ⟨h0, h0', i1, e1, e2, e3, e4⟩ := h
+    by_cases h2 : b0 < 0xF0
+    · exact ⟨[0x80], by simp, _, decodeOne_3 b0 b1 0x80 [] h0 h2 i1 c80 e1 e2⟩
+    · exact ⟨[0x80, 0x80], by simp, _, decodeOne_4 b0 b1 0x80 0x80 [] (by omega) h0' i1 c80 c80 e3 e4⟩
+  | [b0, b1, b2], h =>
+    simp only [wellFormedSoFar] at h
+    obtain ⟨h0, h0', i1, i2, e3, e4⟩ := h
+    exact ⟨[0x80], by simp, _, decodeOne_4 b0 b1 b2 0x80 [] h0 h0' i1 i2 c80 e3 e4⟩
+
+theorem map_some_ne_none {ε α : Type} (x : Except ε α) : Except.map some x ≠ .ok none := by
+  cases x <;> simp [Except.map]
+
+theorem C03_waits_only_when_growable (T : KeyTables) (hT : T.WF) (seq : List Nat) (enc : Enc) (mode : KeyMode)
+    (full : Bool) (hb : ∀ b ∈ seq, b < 256) (h : getKey T seq enc mode full = .ok none) :
+    growsIntoKey T seq ∨
+    (enc = .utf8 ∧ couldBeUnfinishedChar seq .utf8 = true ∧
+      (wellFormedSoFar seq → ∃ ext, ext ≠ [] ∧ validChar (seq ++ ext))) := by
+  unfold getKey at h
+  split at h
+  · cases h
+  · split at h
+    · exact absurd h (map_some_ne_none _)
+    · split at h
+      · rename_i hw
+        simp only [Bool.or_eq_true] at hw
+        rcases hw with hw | hw
+        · left
+          obtain ⟨e, he, _, i, hi, h1, h2⟩ := hT.prefix_sound seq (by simpa using hw)
+          exact ⟨e, he, i, hi, h1, h2⟩
+        · right
+          cases enc with
+          | utf8 => exact ⟨rfl, hw, wellFormed_completes seq⟩
+          | ascii => simp [couldBeUnfinishedChar] at hw
+          | latin1 =>
+            have : decodable seq .latin1 = true := by
+              simp only [decodable, decode, decodeLatin1]
+              rw [if_pos (by simpa using hb)]; rfl
+            simp [couldBeUnfinishedChar, this] at hw
+      · split at h
+        · exact absurd h (map_some_ne_none _)
+        · cases h
+
+/-- The unconditional reading ("whenever the decoder waits, the bytes can be completed to a table sequence or a
+    valid character") is FALSE, as recorded in the design: under utf-8 the decoder waits on `E0 41`, which no
+    continuation completes. This is outside the property (its clause is about input made of recognised sequences
+    and validly encoded characters; `E0 41` is the start of neither), so it is not a finding. -/
+def C03_waits_unconditional_statement : Prop :=
+  ∀ seq, getKey genTables seq .utf8 .curtsies false = .ok none →
+    growsIntoKey genTables seq ∨ ∃ ext, validChar (seq ++ ext)
+
+set_option maxRecDepth 100000 in
+theorem C03_waits_unconditional_false : ¬ C03_waits_unconditional_statement := by
+  intro h
+  have h1 : getKey genTables [0xE0, 0x41] .utf8 .curtsies false = .ok none := by decide +kernel
+  have h2 : ¬ growsIntoKey genTables [0xE0, 0x41] := by unfold growsIntoKey; decide +kernel
+  rcases h _ h1 with h3 | ⟨ext, c, h3⟩
+  · exact h2 h3
+  · cases ext with
+    | nil => simp [decodeOne] at h3
+    | cons x t => simp [decodeOne, isCont] at h3
+
+/-- Non-vacuity of `C03_waits_only_when_growable`: the decoder does wait on `ESC [ 1` and on `E2 82`. -/
+example : getKey genTables [27, 91, 49] .utf8 .curtsies false = .ok none ∧
+    getKey genTables [0xE2, 0x82] .utf8 .curtsies true = .ok none ∧ wellFormedSoFar [0xE2, 0x82] := by
+  refine ⟨by decide +kernel, by decide +kernel, ?_⟩
+  simp [wellFormedSoFar, isCont]
